@@ -127,13 +127,15 @@ fn any_size_known<const SEGS: usize>() -> (SizeKnown<Sink>, u64) {
 }
 
 /// First FIN (`Recv::determin_size`), every offset/length the STREAM parser can produce:
-/// Err(FinalSize, this frame's type) iff data beyond the announced final size was already
-/// received; otherwise the stream becomes SizeKnown with final size == offset+len, keeping its
-/// buffer, id and stop state. A parked reader is woken either way.
+/// Err(FlowControl, this frame's type) iff the announced final size exceeds the advertised stream
+/// limit (checked first); else Err(FinalSize, this frame's type) iff data beyond the announced final
+/// size was already received; otherwise the stream becomes SizeKnown with final size == offset+len,
+/// keeping its buffer, id and stop state. A parked reader is woken either way.
 fn determin_step<const SEGS: usize>() {
     let (mut r, buffered) = any_recv::<SEGS>();
     let had_waker = r.read_waker.is_some();
     let sid = r.stream_id;
+    let msd = r.max_stream_data;
     let off: u64 = kani::any();
     let len: usize = kani::any();
     kani::assume(len as u64 <= VARINT_MAX && off <= VARINT_MAX - len as u64);
@@ -146,17 +148,24 @@ fn determin_step<const SEGS: usize>() {
     kani::cover!(if SEGS == 0 { res.is_ok() && end == 0 } else { res.is_err() && end + 1 == buffered }, "smallest final size / final size one byte below received data");
     match res {
         Err(e) => {
-            assert!(buffered > end, "FINAL_SIZE_ERROR only if data beyond the final size was already received");
-            assert!(e.kind() == ErrorKind::FinalSize);
+            if end > msd {
+                assert!(e.kind() == ErrorKind::FlowControl, "a final size beyond the advertised stream limit is a FLOW_CONTROL_ERROR");
+                kani::cover!(end == msd + 1, "final size one byte beyond the stream limit");
+            } else {
+                assert!(buffered > end, "FINAL_SIZE_ERROR only if data beyond the final size was already received");
+                assert!(e.kind() == ErrorKind::FinalSize);
+            }
             assert!(e.frame_type() == ErrorFrameType::V1(frame.frame_type()));
+            assert!(r.max_stream_data == msd && r.rcvbuf.largest_offset() == buffered, "a rejected FIN changes nothing");
             core::mem::forget(e);
         }
         Ok(sk) => {
+            assert!(end <= msd, "a final size beyond the stream limit is never accepted");
             assert!(buffered <= end, "a final size below received data is never accepted");
             assert!(sk.final_size == end && sk.stream_id == sid);
             assert!(sk.rcvbuf.largest_offset() == buffered, "buffered data moves to the SizeKnown state");
             kani::cover!(end == buffered, "final size exactly at the received high-water mark");
-            kani::cover!(end > (1u64 << 61), "full-width final size");
+            kani::cover!(end == msd && end > (1u64 << 61), "full-width final size exactly at the stream limit");
             core::mem::forget(sk);
         }
     }
